@@ -15,6 +15,10 @@ def run(res, pool, tier, seed):
                  constants=dict(KA=ALLK, KB=ALLK, BODIES={"tet2", "par", "ppyr", "cube", "hexObl"} if not q else {"tet2", "par", "ppyr"},
                                 SEED=seed % 1000, NSHARD=12 if q else 3, NSHARDT=48 if q else 12, NBORING=120 if q else 12))]
     engine.run_jobs(res, jobs, pool)
+    # TLAPS: the algebra behind equivariance for all integers (sides, volumes, areas, lengths under translation, scaling, a signed permutation)
+    import tlcio
+    res.extra["tlaps"] = tlcio.run_tlaps("Proofs_G3DEqui.tla", ["SideTranslates", "SideScales", "DetTranslates", "DetScales", "CrossScales1", "CrossScales2",
+                                                                "CrossScales3", "Norm2Scales", "SignedPermutation"])
 
 
 def represent(x, pose, num, rng):
